@@ -19,7 +19,7 @@ def fresh_name(sk, names, label="new", letters="acdeghjkmnoqstvwxyz", extra_rese
     return new
 
 
-def run_refactoring(sk, build_op, prop, check_imports=True, require_run_ok=True, extra_reserved=(), post=None):
+def run_refactoring(sk, build_op, prop, check_imports=True, require_run_ok=True, extra_reserved=(), post=None, prefs=None):
     """one path: instantiate the skeleton, build the operation (may use choose/sym), call rope,
     judge.  build_op(sk, names, files, cf) -> op dict (values may be proxies) or raises PathAbort"""
     E = core.ENGINE
@@ -37,7 +37,7 @@ def run_refactoring(sk, build_op, prop, check_imports=True, require_run_ok=True,
         if exc is not None:
             raise PathAbort("the original program does not run cleanly in this partition (%s)" % exc)
     op = build_op(sk, names, files, cf)
-    with SymProject() as sp:
+    with SymProject(**(op.get("prefs") or {})) as sp:
         for pth, txt in files.items():
             sp.add(pth, txt)
         try:
